@@ -13,6 +13,13 @@
   placed anywhere, in any order, for any number of workers (an index that names no task is a no-op, a read that
   would need the lock while it is taken does not happen).  `refRun` is the reference kept from the statement: the
   latest configuration received and the live registrations.  No bound anywhere.
+
+  Outside the model (disclosed): the shutdown window.  `__trigger_update` always submits; after `TaskHandler.flush()`
+  has closed the handler `submit_task` raises IllegalStateException (a BaseException) out of `update_new_config` /
+  `add_custom` / `remove_custom` AFTER the hash / configuration / registration was stored, so between `flush()` and
+  the end of `Deep.shutdown()` a poll answer or a register call can leave the stored state ahead of what is
+  installed (and kills the poll timer, which only survives `Exception`).  The theorems speak about the agent while
+  its task handler accepts work.
 -/
 import DeepModel.Proofs.ConfigSvc
 
@@ -35,15 +42,15 @@ theorem c12_converges (ops : List Op) (hq : quiescent (run ops) = true) :
     show _ = _ ++ ((run ops).svc.customIds.zip (run ops).svc.custom).map (·.2)
     rw [map_snd_regs _ r.wf]
 
-/-- the reference's "latest" really is the last update: after an update that converts, and any further ops that
-    are not themselves converting updates, the latest configuration is that update's. -/
+/-- the reference's "latest" really is the last update: after an UPDATE answer and any further ops that are not
+    themselves UPDATE answers, the latest configuration is that update's — its tracepoints minus those the agent
+    cannot convert or interpret (which `convert_response` skips). -/
 theorem c12_latest_is_last_update (ops ops' : List Op) (ts : Int) (h : String) (tps : List RawTp)
-    (hc : tps.all (·.convertible) = true)
-    (hno : ∀ op ∈ ops', ∀ ts' h' tps', op = .poll .update ts' h' tps' → tps'.all (·.convertible) = false) :
+    (hno : ∀ op ∈ ops', ∀ ts' h' tps', op ≠ .poll .update ts' h' tps') :
     (refRun (ops ++ .pollUpdate ts h tps :: ops')).latest =
-      some (h, (tps.filter (·.interpretable)).map (·.trig)) := by
+      some (h, (tps.filter (fun t => t.convertible && t.interpretable)).map (·.trig)) := by
   have key : ∀ (ops' : List Op) (r : Ref),
-      (∀ op ∈ ops', ∀ ts' h' tps', op = .poll .update ts' h' tps' → tps'.all (·.convertible) = false) →
+      (∀ op ∈ ops', ∀ ts' h' tps', op ≠ .poll .update ts' h' tps') →
       (ops'.foldl refStep r).latest = r.latest := by
     intro ops'
     induction ops' with
@@ -57,13 +64,11 @@ theorem c12_latest_is_last_update (ops ops' : List Op) (ts : Int) (h : String) (
         cases rt with
         | noChange => rfl
         | other => rfl
-        | update =>
-          have := hno _ (List.mem_cons_self ..) ts' h' tps' rfl
-          simp [refStep, this]
+        | update => exact absurd rfl (hno _ (List.mem_cons_self ..) ts' h' tps')
       | _ => rfl
   simp only [refRun, List.foldl_append, List.foldl_cons]
   rw [key ops' _ hno]
-  simp [refStep, hc]
+  simp [refStep]
 
 /-- **hash** — the hash the next poll reports is the hash of the latest configuration received (nothing, before
     the first one), the agent holds that configuration, and either it is what is installed (with the live
@@ -96,40 +101,59 @@ theorem c12_hash_received (ops : List Op) (h : String) (hh : (refRun ops).hash =
           | noChange => exact Or.inl h1
           | other => exact Or.inl h1
           | update =>
-            by_cases hc : tps'.all (·.convertible) = true
-            · simp only [refStep, hc, if_true, Ref.hash, Option.map_some, Option.some.injEq] at h1
-              subst h1
-              exact Or.inr ⟨ts', tps', List.mem_cons_self ..⟩
-            · simp only [refStep, hc] at h1
-              exact Or.inl h1
+            simp only [refStep, Ref.hash, Option.map_some, Option.some.injEq] at h1
+            subst h1
+            exact Or.inr ⟨ts', tps', List.mem_cons_self ..⟩
         | _ => exact Or.inl h1
       · exact Or.inr ⟨ts, tps, List.mem_cons_of_mem _ hm⟩
   rcases key ops Ref.init hh with h0 | h1
   · simp [Ref.init, Ref.hash] at h0
   · exact h1
 
-/-- **no change is inert** — a NO_CHANGE answer only records the poll time stamp: hash, polled configuration,
+/-- tripwire: **no change is inert** — a NO_CHANGE answer only records the poll time stamp: hash, polled configuration,
     registrations, queued tasks, values held, installed tracepoints and the timer are the same (in any state). -/
 theorem c12_nochange_inert (locked : Bool) (s : St) (r : Ref) (ts : Int) (h : String) (tps : List RawTp) :
     step locked s (.poll .noChange ts h tps) = { s with svc := { s.svc with lastUpdate := ts } } ∧
     refStep r (.poll .noChange ts h tps) = r := ⟨rfl, rfl⟩
 
 /-- **a failed or unintelligible poll keeps the last good configuration** — a `stub.poll` that raises an
-    `Exception`, an UPDATE whose conversion raises, or an answer of a type that is neither NO_CHANGE nor UPDATE
-    (whatever else it carries) changes nothing at all (hash, configuration, what is installed, tasks, timer), in
-    any state. -/
+    `Exception` (a poll that fails as a whole: connection error, garbage instead of a response), or an answer of a
+    type that is neither NO_CHANGE nor UPDATE (whatever else it carries) changes nothing at all (hash,
+    configuration, what is installed, tasks, timer), in any state.  (A tracepoint inside an UPDATE that cannot be
+    converted is skipped, the rest of that update is applied: `c12_partial_update`.) -/
 theorem c12_error_keeps (locked : Bool) (s : St) :
     step locked s .pollError = s ∧
-    (∀ ts h tps, tps.all (·.convertible) = false → step locked s (.poll .update ts h tps) = s) ∧
-    (∀ ts h tps, step locked s (.poll .other ts h tps) = s) := by
-  refine ⟨pollFail_exc s, ?_, fun _ _ _ => rfl⟩
-  intro ts h tps hc
+    (∀ ts h tps, step locked s (.poll .other ts h tps) = s) :=
+  ⟨pollFail_exc s, fun _ _ _ => rfl⟩
+
+/-- an UPDATE is applied with exactly the tracepoints the agent can convert and interpret; the others are skipped
+    and cost nothing else (hash taken, one apply task queued) -/
+theorem c12_partial_update (locked : Bool) (s : St) (ts : Int) (h : String) (tps : List RawTp) :
+    (step locked s (.poll .update ts h tps)).svc =
+        updateNewConfig s.svc ts h ((tps.filter (fun t => t.convertible && t.interpretable)).map (·.trig)) ∧
+      (step locked s (.poll .update ts h tps)).h = s.h ∧
+      (step locked s (.poll .update ts h tps)).holding = s.holding ∧
+      (step locked s (.poll .update ts h tps)).pre = s.pre ∧
+      (step locked s (.poll .update ts h tps)).timerAlive = s.timerAlive := by
   have e : step locked s (.poll .update ts h tps) =
       match convertResponse tps with
       | none => pollFail s .exc
       | some cfg => { s with svc := updateNewConfig s.svc ts h cfg } := rfl
-  rw [e]
-  simp [convertResponse_eq, hc, pollFail_exc]
+  rw [e, convertResponse_eq]
+  exact ⟨rfl, rfl, rfl, rfl, rfl⟩
+
+/-- **progress** — from wherever a history leaves the agent, the background tasks alone (no further poll, register
+    or unregister) bring it to quiescence, and there it acts on the latest configuration plus the live
+    registrations: the configuration whose hash it reports is installed or WILL be. -/
+theorem c12_progress (ops : List Op) :
+    ∃ ops', (∀ o ∈ ops', o.isTask = true) ∧ quiescent (run (ops ++ ops')) = true ∧
+      (run (ops ++ ops')).h.installed = (refRun ops).expected := by
+  obtain ⟨ops', ht, hq⟩ := progress (run ops) (rel_run ops).settled.1
+  have e : run (ops ++ ops') = runFrom true (run ops) ops' := by
+    simp [run, runFrom, List.foldl_append, applyLocked]
+  refine ⟨ops', ht, by rw [e]; exact hq, ?_⟩
+  rw [← refRun_tasks ops ops' ht]
+  exact c12_converges (ops ++ ops') (by rw [e]; exact hq)
 
 /-- **polling continues** — along every history in which no poll dies of a non-`Exception` `BaseException`, the
     timer thread is alive: whether POLL_TIMER was a number or a text, however many polls failed or were malformed. -/
@@ -154,14 +178,7 @@ theorem c12_polling_continues (ops : List Op) (hb : Op.pollFail .base ∉ ops) :
           | noChange => exact hs
           | other => exact hs
           | update =>
-            have e : step applyLocked s (.poll .update ts h tps) =
-                match convertResponse tps with
-                | none => pollFail s .exc
-                | some cfg => { s with svc := updateNewConfig s.svc ts h cfg } := rfl
-            rw [e]
-            cases convertResponse tps with
-            | none => rw [pollFail_exc]; exact hs
-            | some cfg => exact hs
+            rw [(c12_partial_update applyLocked s ts h tps).2.2.2.2]; exact hs
         | timerStart text => simp [step, hs, intervalCoerced]
         | register t => exact hs
         | registerBad => exact hs
@@ -212,14 +229,14 @@ private def t2 : RawTp := ⟨⟨"a.py", 2, "s2"⟩, true, true⟩
 private def bad : RawTp := ⟨⟨"a.py", 3, "s3"⟩, false, true⟩
 private def broken : RawTp := ⟨⟨"a.py", 4, "s4"⟩, true, false⟩
 
-/-- two updates in flight applied in reverse order, a registration, an uninterpretable tracepoint, a malformed
-    response and a failed poll: settled on the second update plus the registration. -/
+/-- updates in flight applied out of order, a registration, an uninterpretable and an unconvertible tracepoint (both
+    skipped), a failed poll and an answer of unknown type: settled on the last update plus the registration. -/
 example :
     let ops := [Op.pollUpdate 1 "h1" [t1], .pollUpdate 2 "h2" [t2, bad], .register ⟨"b.py", 1, "w1"⟩,
                 .pollUpdate 3 "h3" [t1, broken], .pollError, .pollNoChange 4, .poll .other 5 "" [],
                 .taskStart 1, .taskStart 0, .taskRead 0, .taskRead 0, .taskCall 0, .taskInstall 0, .taskRead 0,
-                .taskCall 0, .taskInstall 0, .applyTask 0]
-    quiescent (run ops) = true ∧ (run ops).h.installed = [t2.trig, ⟨"b.py", 1, "w1"⟩] ∧
-    requestHash (run ops).svc = some "h2" ∧ (refRun ops).expected = [t2.trig, ⟨"b.py", 1, "w1"⟩] := by decide
+                .taskCall 0, .taskInstall 0, .applyTask 0, .applyTask 0]
+    quiescent (run ops) = true ∧ (run ops).h.installed = [t1.trig, ⟨"b.py", 1, "w1"⟩] ∧
+    requestHash (run ops).svc = some "h3" ∧ (refRun ops).expected = [t1.trig, ⟨"b.py", 1, "w1"⟩] := by decide
 
 end C12
